@@ -212,6 +212,10 @@ def mk_ite(c, a, b):
             pass
     if a is b:
         return a
+    if hasattr(a, "__sym_ite__"):
+        return a.__sym_ite__(c, b)
+    if hasattr(b, "__sym_ite__"):
+        return b.__sym_ite__(z3.Not(c), a)
     if not (is_number(a) and is_number(b)):
         raise Unsupported(f"cannot merge non-numeric values {type(a).__name__}/{type(b).__name__} under a symbolic condition")
     A, B = lift(a), lift(b)
